@@ -16,7 +16,6 @@ use futures::{stream::FuturesUnordered, StreamExt};
 #[cfg(test)]
 use mockall::automock;
 use secp256k1::hashes::sha256;
-use tokio::join;
 use tracing::{debug, instrument, warn};
 
 use crate::rpc::{ClnRpc, RpcError};
@@ -158,7 +157,6 @@ where
             start: None,
             status: Some(ListsendpaysStatus::COMPLETE),
         };
-        let completed_payments_fut = self.rpc.listsendpays(&completed_req);
         let pending_req = ListsendpaysRequest {
             payment_hash: Some(payment_hash),
             bolt11: None,
@@ -167,10 +165,12 @@ where
             start: None,
             status: Some(ListsendpaysStatus::PENDING),
         };
-        let pending_payments_fut = self.rpc.listsendpays(&pending_req);
-        let (completed_payments, pending_payments) =
-            join!(completed_payments_fut, pending_payments_fut);
-        let (completed_payments, pending_payments) = (completed_payments?, pending_payments?);
+        // Query the pending parts before the completed ones. A part only ever
+        // moves from pending to complete or failed, so a part that completes
+        // in between the two queries shows up in at least one of them. Querying
+        // them concurrently or the other way around could miss it.
+        let pending_payments = self.rpc.listsendpays(&pending_req).await?;
+        let completed_payments = self.rpc.listsendpays(&completed_req).await?;
 
         if let Some(preimage) = completed_payments
             .payments
